@@ -757,6 +757,10 @@ func (p *CaseForm) typecheckForm(gammaNameTypesCtx NamesTypesCtx, providerShadow
 			newGammaNameTypesCtx := copyContext(gammaNameTypesCtx)
 
 			// curBranchForm.payload_c cannot exist in gammaNameTypesCtx
+			if nameTypeExists(gammaNameTypesCtx, curBranchForm.payload_c.Ident) {
+				return TypeErrorf("variable name '%s' is already defined. Use a unique name in %s", curBranchForm.payload_c.String(), curBranchForm.StringShort())
+			}
+
 			newGammaNameTypesCtx[curBranchForm.payload_c.Ident] = NamesType{Type: expectedBranchType.SessionType}
 
 			// Set type
